@@ -55,3 +55,12 @@ package validator
 //@   loop 1 iter [C15] len(diags) == old(len(diags)) + ite(blockSchema.MinItems != 0 && (!haskey(schemacontext.FoundBlocks(ctx), name) || schemacontext.FoundBlocks(ctx)[name] < blockSchema.MinItems) && !(bodySchema.Extensions != nil && bodySchema.Extensions.DynamicBlocks && haskey(schemacontext.DynamicBlocks(ctx), name) && schemacontext.DynamicBlocks(ctx)[name] > 0), 1, 0)
 //@   loop 1 iter [C15] implies(len(diags) > old(len(diags)), diags[len(diags)-1].Severity == hcl.DiagError && *diags[len(diags)-1].Subject == node.Range())
 //@   ensures [C15,name:every-declared-block-type-is-examined] implies(isBody(node) && nodeSchema != nil, pastloop(1))
+
+// ---- every element is examined: the loops below have no break and no return inside, i.e. they are left only
+// ---- when their range is exhausted (generated from the control-flow graph of the pinned tree with
+// ---- `govc loops`; tagged with the properties anchored in the function's file). An added early exit in a
+// ---- collecting loop silently drops the remaining elements.
+//@ loop-complete (validator.BlockLabelsLength).Visit 1 C02,C15
+//@ loop-complete (validator.MaxBlocks).Visit 1 C02,C07,C15
+//@ loop-complete (validator.MinBlocks).Visit 1 C02,C15
+//@ loop-complete (validator.MissingRequiredAttribute).Visit 1 C02,C15
